@@ -34,7 +34,8 @@ def execute(case):
         pre = snapshot(nodes, intern)
         events.append({"id": "%s/c%d" % (tr, k), "tr": tr, "ev": "Call", "entry": e.key, "opt": c.opt,
                        "kind": case["kind"], "dtype": case["dtype"], "decl": decl, "forms": list(c.forms), "slots": pre})
-        how, val = L.invoke(c)
+        # "previous failed call": the first call of the trace is made with options that make it fail half-way
+        how, val = L.invoke(c, c.first_call_overrides if k == 1 else None)
         reach = {p: o for p, kk, o in W.walk_args(c.args, c.kwargs)}
         slots = []
         for p, kk, o in nodes:
@@ -45,7 +46,7 @@ def execute(case):
                 d = -1
             slots.append({"p": list(p), "d": d, "h": h})
         events.append({"id": "%s/x%d" % (tr, k), "tr": tr, "ev": "Return" if how == "return" else "Raise", "entry": case["entry"],
-                       "exc": type(val).__name__ if how == "raise" else "none", "expect": c.expect, "slots": slots})
+                       "exc": type(val).__name__ if how == "raise" else "none", "expect": c.expect, "forms": list(c.forms), "slots": slots})
         del val
     return {"id": tr, "events": events}
 
@@ -85,6 +86,23 @@ def report(chk, events, cases_by_id):
                       "slotpat": ".".join("N" if x.isdigit() else x for x in path)}
 
 
+def rotate_dtypes(cases, seed):
+    """Quick tier: ownership does not depend on the precision, so only the first kind of every API entry (and the
+    dtype-scaled 'badcol' regimes) runs in both dtypes; every other (entry, kind) runs in ONE dtype chosen by a
+    rotation over the case name and the seed (different seeds cover the other half)."""
+    import zlib
+    first = {name: e.kinds[0] for name, e in L.ENTRIES.items()}
+    out = []
+    for c in cases:
+        both = ("#" not in c["entry"] and c["kind"] == first[c["entry"]]) or "~badcol" in c["kind"]
+        if not both:
+            pick = ("float32", "float64")[(zlib.crc32(("%s/%s" % (c["entry"], c["kind"])).encode()) + seed) % 2]
+            if c["dtype"] != pick and pick in L.ENTRIES[c["entry"]].dtypes:
+                continue
+        out.append(c)
+    return out
+
+
 def run(chk, opts):
     thorough = chk.tier == "thorough"
     r = chk.design("OwnershipMC", "OwnershipMC_thorough.cfg" if thorough else "OwnershipMC_quick.cfg",
@@ -102,6 +120,8 @@ def run(chk, opts):
 
     dtypes = L.ALLDT if thorough else ("float64", "float32")
     cases = L.cases(dtypes, entries=set(opts["entries"].split(",")) if "entries" in opts else None)
+    if not thorough:
+        cases = rotate_dtypes(cases, chk.seed)
     for c in cases:
         c["seed"] = chk.seed
     chk.add_cases(cases)
